@@ -1512,6 +1512,9 @@ impl Sim {
             if dump.archetypes.len() > 64 {
                 probes.hit("world_has_more_than_64_archetypes");
             }
+            if dump.slots.len() > 65536 {
+                probes.hit("world_has_more_than_65536_slots");
+            }
         }
         // C04: exactly-once drops — what is live is exactly what the models hold.
         if !self.balance_off {
